@@ -19,6 +19,8 @@ package json
 
 //@ global forall k in 0..256: noEscapeTable[k] == (k >= 32 && k <= 126 && k != 92 && k != 34)
 
+//@ config JSONMarshalFunc != nil
+
 //@ var JSONMarshalFunc(v) res, err
 //@   modifies nothing
 //@   ensures err == nil ==> wholevalue(res)
@@ -131,6 +133,7 @@ package json
 //@   flag tags !binary_log
 //@   requires valueok(dst)
 //@   ensures lex(res) == 0 && mode(res) == OBJ_FIRST && stk(res) == pushstk(mode(dst), stk(dst)) && prefix(res, dst) && len(res) == len(dst) + 1 && res[len(res)-1] == '{'
+//@   ensures [C05] base(res) == base(dst) || fresh(res)
 
 //@ func (Encoder).AppendEndMarker(e, dst) res
 //@   props C01 C03
@@ -544,5 +547,3 @@ package json
 //@     invariant 0 <= rangeindex + 1 && rangeindex + 1 <= len(vals) - 1
 //@     invariant lex(dst) == 0 && mode(dst) == ARR_NEXT && stk(dst) == pushstk(mode(dst0), stk(dst0)) && prefix(dst, dst0) && len(dst) > len(dst0)
 //@     decreases len(vals) - 1 - (rangeindex + 1)
-
-//@ config JSONMarshalFunc != nil
